@@ -182,7 +182,7 @@ var stdSizes = &types.StdSizes{WordSize: 8, MaxAlign: 8}
 
 var initAllow = []string{
 	vhPath, extPath, langPath, "unicode", "strconv", "strings", "cmp", "slices", "math",
-	"unicode/utf8", "math/bits", "io", "sort", "bytes",
+	"unicode/utf8", "math/bits", "io", "sort", "bytes", "flag", cliPath,
 }
 
-var mutablePkgs = []string{vhPath, extPath, langPath}
+var mutablePkgs = []string{vhPath, extPath, langPath, cliPath, "flag", "os"}
